@@ -19,7 +19,10 @@
 From Coq Require Import NArith List.
 Import ListNotations.
 From stdpp Require Import gmap.
-From CV Require Import Chain.Store Chain.StoreProofs Chain.Accum Chain.AccumProofs.
+From CV Require Import Chain.Store.
+From CV Require Import Chain.StoreProofs.
+From CV Require Import Chain.Accum.
+From CV Require Import Chain.AccumProofs.
 Open Scope N_scope.
 
 (** Applying the elements of a block and reverting them (law L1: reverse diff lists)
